@@ -868,7 +868,7 @@ func runC18(cases string, res *Result) {
 	}
 	res.Notes = append(res.Notes,
 		"alias:<filter>:<class> counts the aliasing class observed on the engine for every probed filter result: scalar | fresh (a new object) | window (a slice over a backing array of the caller) | same-map / pointer (the object of the caller itself) | value (struct or array value)",
-		"slice on []interface{} returns a window of the array of the caller (class window, Properties/C18.v C18_slice_private_copy_refuted); no built-in writes through it; see notes/proposed-fixes/C18-slice-private-copy.patch")
+		"slice on []interface{}: class window means filterSlice returns v[start:end], a window of the array of the caller (Properties/C18.v C18_slice_private_copy_refuted, repaired by notes/proposed-fixes/C18-slice-private-copy.patch); class fresh means the private copy")
 }
 
 func c18IsCollection(v interface{}) bool {
